@@ -502,6 +502,11 @@ func (app *App) stateManager() appState {
 				app.logger.Error().Msgf("switchover was aborted")
 			} else {
 				if err != nil {
+					if !app.AcquireLock(pathManagerLock) {
+						// the record belongs to the new manager now: our stale copy must not overwrite its progress
+						app.logger.Error().Err(err).Msg("switchover failed and manager lock is lost, leaving the request to the new manager")
+						return stateCandidate
+					}
 					err = app.FailSwitchover(switchover, err)
 					if err != nil {
 						app.logger.Error().Err(err).Msg("failed to report switchover failure")
